@@ -102,7 +102,8 @@ func noSecretsAPIs(x *h.X, cfg string, ks *tinkpb.Keyset, secret bool, wantKeys 
 
 func foreignLargeSection(x *h.X) {
 	_, pub := secretUnits()
-	if x.Choose("part", 2) == 0 {
+	part := x.Choose("part", 3)
+	if part == 0 {
 		// (a) foreign type URLs
 		mats := []tinkpb.KeyData_KeyMaterialType{tinkpb.KeyData_REMOTE, tinkpb.KeyData_ASYMMETRIC_PUBLIC, tinkpb.KeyData_SYMMETRIC, tinkpb.KeyData_ASYMMETRIC_PRIVATE, tinkpb.KeyData_UNKNOWN_KEYMATERIAL}
 		mt := mats[x.Choose("material-type", len(mats))]
@@ -142,6 +143,28 @@ func foreignLargeSection(x *h.X) {
 		secret := mt != tinkpb.KeyData_REMOTE && mt != tinkpb.KeyData_ASYMMETRIC_PUBLIC
 		x.NonTrivial()
 		cfg := fmt.Sprintf("keyset with a key of a type URL no registry knows (material type %v, prefix %v, status %v, shape %d)", mt, pt, st, shape)
+		noSecretsAPIs(x, cfg, ks, secret, len(ks.Key))
+		return
+	}
+	if part == 2 {
+		// (c) several keys of ONE foreign type URL carrying DIFFERENT material types: the verdict is per key, never
+		// per key type (a later key of a type already seen as REMOTE / public may well be labelled secret)
+		mats := []tinkpb.KeyData_KeyMaterialType{tinkpb.KeyData_REMOTE, tinkpb.KeyData_ASYMMETRIC_PUBLIC, tinkpb.KeyData_SYMMETRIC, tinkpb.KeyData_ASYMMETRIC_PRIVATE, tinkpb.KeyData_UNKNOWN_KEYMATERIAL}
+		m1 := mats[x.Choose("material-type-of-first", 2)]
+		m2 := mats[x.Choose("material-type-of-later", len(mats))]
+		st := statuses[x.Choose("status-of-later-key", 3)]
+		n := 2 + x.Choose("keys-between", 3)
+		ks := &tinkpb.Keyset{PrimaryKeyId: 0x0badc000}
+		for i := 0; i < n; i++ {
+			k := &tinkpb.Keyset_Key{KeyData: &tinkpb.KeyData{TypeUrl: foreignURL, Value: []byte(fmt.Sprintf("opaque-%d", i)), KeyMaterialType: m1}, Status: tinkpb.KeyStatusType_ENABLED, KeyId: 0x0badc000 + uint32(i), OutputPrefixType: tinkpb.OutputPrefixType_TINK}
+			if i == n-1 {
+				k.KeyData.KeyMaterialType, k.Status = m2, st
+			}
+			ks.Key = append(ks.Key, k)
+		}
+		secret := m2 != tinkpb.KeyData_REMOTE && m2 != tinkpb.KeyData_ASYMMETRIC_PUBLIC
+		x.NonTrivial()
+		cfg := fmt.Sprintf("keyset of %d keys of one type URL no registry knows: material type %v, the last one %v (status %v)", n, m1, m2, st)
 		noSecretsAPIs(x, cfg, ks, secret, len(ks.Key))
 		return
 	}
